@@ -781,6 +781,18 @@ def cross_branch_stream(rng, n):
                 acts.insert(rng.randint(1, len(acts)),
                             {'a': 'register', 'reg': 0, 'ty': t, 'exact': False,
                              'kw': [[op, 'h:%s' % t]] if rng.random() < 0.7 else []})
+        # directed edit: a type with two registered supertypes is registered between them and the
+        # first supertype is registered again (it moves behind the second one)
+        multi = [c for c in specs if len([b for b in c['bases'] if b != 'object']) >= 2]
+        if multi and rng.random() < 0.5:
+            x = rng.choice(multi)
+            s1, s2 = rng.sample([b for b in x['bases'] if b != 'object'], 2)
+            mk = lambda t: {'a': 'register', 'reg': 0, 'ty': t, 'exact': False, 'kw': [[op, 'h:%s' % t]]}
+            core = [mk(s1), mk(x['name']), mk(s2), mk(s1)] if rng.random() < 0.5 else \
+                   [mk(x['name']), mk(s1), mk(s2), mk(s1)]
+            rest = [a for a in acts if a['ty'] not in (s1, s2, x['name'])]
+            k = rng.randint(0, len(rest))
+            acts = rest[:k] + core + rest[k:]
         for q in targets:
             acts.append({'a': 'lookup', 'reg': 0, 'op': op, 'ty': q, 'raise': rng.random() < 0.8})
         yield {'classes': specs, 'kinds': [kind], 'actions': acts}
